@@ -10,6 +10,11 @@
 (*           notImplemented  a named deviation of fhirpath-go: every call  *)
 (*                           fails with an error at Compile or Evaluate    *)
 (*           experimental    callable only under WithExperimentalFuncs     *)
+(*           custom          zzCustom(x): the function the configuration   *)
+(*                           "custom" = WithExperimentalFuncs followed by  *)
+(*                           AddFunction("zzCustom", f) registers; f       *)
+(*                           returns (x, count of its input); callable     *)
+(*                           under that configuration only                 *)
 (*   recv, args   the well-typed receiver and arguments (source text) of   *)
 (*                the default call; positions beyond `args` are filled     *)
 (*                with the literal 1                                       *)
@@ -563,12 +568,17 @@ Table == <<
       [count |-> 0, recv |-> "%strs", args |-> <<>>, mode |-> "exact",
        exp |-> <<S(<<97, 98>>) (* ab *)>>],
       [count |-> 1, recv |-> "%strs", args |-> <<"','">>, mode |-> "exact",
-       exp |-> <<S(<<97, 44, 98>>) (* a,b *)>>]>>]
+       exp |-> <<S(<<97, 44, 98>>) (* a,b *)>>]>>],
+  [name |-> "zzCustom", status |-> "custom", counts |-> {1},
+   recv |-> "%ints", args |-> <<"7">>,
+   probes |-> <<
+      [count |-> 1, recv |-> "%ints", args |-> <<"7">>, mode |-> "exact",
+       exp |-> <<I(7), I(4)>>]>>]
 >>
 
-Statuses == {"implemented", "notImplemented", "experimental"}
+Statuses == {"implemented", "notImplemented", "experimental", "custom"}
 Modes    == {"exact", "unordered", "num", "type"}
-Configs  == {"default", "experimental"}
+Configs  == {"default", "experimental", "custom"}
 MaxProbeCount == 4
 
 Names      == {Table[j].name : j \in 1..Len(Table)}
@@ -579,9 +589,13 @@ MaxCount(f) == CHOOSE c \in f.counts : \A d \in f.counts : c >= d
 
 (* names a Compile under configuration cfg can resolve (not-implemented     *)
 (* names are resolvable: they are bound to a placeholder that fails)        *)
-Visible(cfg) == {Table[j].name : j \in {h \in 1..Len(Table) : Table[h].status # "experimental" \/ cfg = "experimental"}}
+VisibleIn(f, cfg) ==
+  CASE f.status = "experimental" -> cfg \in {"experimental", "custom"}
+    [] f.status = "custom"       -> cfg = "custom"
+    [] OTHER                     -> TRUE
+Visible(cfg) == {Table[j].name : j \in {h \in 1..Len(Table) : VisibleIn(Table[h], cfg)}}
 (* must be callable with every count of `counts` *)
-Callable(f, cfg) == f.status = "implemented" \/ (f.status = "experimental" /\ cfg = "experimental")
+Callable(f, cfg) == f.status # "notImplemented" /\ VisibleIn(f, cfg)
 
 (* ------------------------------------------------------------------------ *)
 (* The Compile-acceptance rule: a call name(a1..ac) is accepted exactly     *)
